@@ -5,7 +5,6 @@ from __future__ import annotations
 import os
 from pathlib import Path
 from typing import cast
-from uuid import uuid4
 
 from docutils import nodes
 from markdown_it.tree import SyntaxTreeNode
@@ -205,8 +204,19 @@ class SphinxRenderer(DocutilsRenderer):
         self.add_line_and_source_path(node, token)
         self.current_node.append(node)
 
+    def setup_render(self, options, env) -> None:
+        super().setup_render(options, env)
+        # number of labels generated for this document by `_random_label`
+        self._generated_labels: int = 0
+
     def _random_label(self) -> str:
-        return str(uuid4())
+        """Return a label for an equation that has none.
+
+        It is unique within the project (document name plus a count)
+        and, unlike a random UUID, the same in every build of the same sources.
+        """
+        self._generated_labels += 1
+        return f"amsmath-{self.sphinx_env.docname}-{self._generated_labels}"
 
     def render_amsmath(self, token: SyntaxTreeNode) -> None:
         """Renderer for the amsmath extension."""
@@ -215,7 +225,7 @@ class SphinxRenderer(DocutilsRenderer):
 
         if token.meta["numbered"] != "*":
             # TODO how to parse and reference labels within environment?
-            # for now we give create a unique hash, so the equation will be numbered
+            # for now we create a unique label, so the equation will be numbered
             # but there will be no reference clashes
             label = self._random_label()
             node = nodes.math_block(
